@@ -73,7 +73,7 @@ ASSUMPTIONS = [
     "inexact lead-coefficient division (others are skipped and counted)",
     "quotient(a,b)/Rational(a,b): exact float equality with a/b for |a|,|b| < 2^53, "
     "relative 2^-50 beyond; b != 0 only",
-    "a case that does not finish within 5 s is reported as a hang (the reference "
+    "a case that does not finish within 20 s (wall clock) is reported as a hang (the reference "
     "side is bounded by construction)",
 ]
 HEALTH = {"mul:prefix-cancellation": 0.008, "mul:cancel": 0.008,
@@ -85,7 +85,7 @@ HEALTH = {"mul:prefix-cancellation": 0.008, "mul:cancel": 0.008,
           "eval:symbolic": 0.004, "quotient:big": 0.008, "ipow:n>64": 0.004}
 
 TIMEOUT_IS_FAIL = True
-CASE_TIMEOUT_S = 5
+CASE_TIMEOUT_S = 20      # wall clock; a case needs < 0.1 s CPU on the unchanged tree
 BUDGET_S = {"quick": 200, "thorough": 2400}
 
 X = prim.Variable("x")
@@ -1263,7 +1263,7 @@ def generate(ctx):
     def judge(sub, spec):
         # a mutant that loops costs CASE_TIMEOUT_S per case: stop feeding a
         # sub-check once it has produced a handful of hangs
-        if ctx.fail_counts.get(f"{sub}|hang", 0) >= 4:
+        if ctx.fail_counts.get(f"{sub}|hang", 0) >= 2:
             ctx.extra[f"not-run-after-hangs:{sub}"] += 1
             return None
         return ctx.judge(sub, spec)
